@@ -17,7 +17,7 @@ from . import rustc_engine as rc
 from .c09 import finish
 
 KINDS = ['split', 'flat', 'multi', 'nested', 'nested', 'unsized', 'unsized2', 'targs:generic', 'targs:concrete', 'targs:lifetime', 'targs:const', 'targs:bounded',
-         'targs:unsized_arg', 'targs:default_omitted', 'flat', 'multi']
+         'targs:unsized_arg', 'targs:default_omitted', 'targs:unsized_where', 'flat', 'multi']
 
 
 def canonical_generics(b, relaxed_slots):
@@ -51,7 +51,7 @@ def reference_program(c):
     else:
         for i, b in enumerate(c.blocks):
             fams.setdefault((b.trait_args, b.self_ty, tuple(sorted(b.slots))), []).append(i)
-    src = gp.PRELUDE + gp.world_text(c.world) + c.extra_world + gp.trait_def(c.trait_name, c.trait_generics)
+    src = gp.PRELUDE + gp.world_text(c.world) + c.extra_world + gp.trait_def(c.trait_name, c.trait_generics, where=getattr(c, 'trait_where', ''))
     tparams = c.trait_generics.strip()
     tparams_inner = tparams[1:-1] if tparams else ''
     for fi, (key, members) in enumerate(fams.items()):
